@@ -48,12 +48,13 @@ func (EntropyOracle) AfterStep(m *VM, rec *Rec) {
 		return
 	}
 	m.Probe("token_with_healthy_entropy")
-	if len(rnd.Delivered) < 32 {
+	given := rnd.Delivered[rnd.OpStart:] // what this very operation was handed
+	if len(given) < 32 {
 		m.Violate("C20", "token-without-entropy", rec.K+" returned a token although fewer than 32 bytes were delivered",
-			fmt.Sprintf("op %d: delivered %d bytes", rec.I, len(rnd.Delivered)))
+			fmt.Sprintf("op %d: delivered %d bytes", rec.I, len(given)))
 		return
 	}
-	seed := rnd.Delivered[:32]
+	seed := given[:32]
 	ser, err := tok.B.Serialize()
 	if err != nil {
 		return
